@@ -24,7 +24,7 @@ def valid(kw):
     return True
 
 
-def gen(xkind, dup, nested, reexp, origin_all, local_def, consumer, cycle, zope=False, fielddoc=False, shadow=False, samename=False):
+def gen(xkind, dup, nested, reexp, origin_all, local_def, consumer, cycle, zope=False, fielddoc=False, shadow=False, samename=False, accel=False):
     def defx(tag):
         if xkind == "class":
             doc = f"X {tag}" + ("\n\n    @ivar fld: documented only here\n    " if fielddoc else "")
@@ -70,6 +70,9 @@ def gen(xkind, dup, nested, reexp, origin_all, local_def, consumer, cycle, zope=
             impl += deco + defx(2)
         elif dup == "other":
             impl += defother(2)
+    if accel:
+        # the "optional accelerator" idiom: the defining module also binds the name by an import that fails at run time
+        impl += "try:\n    from _speedups import X\nexcept ImportError:\n    pass\n"
     init = "'''pkg'''\n"
     sib = None
     newname = "X"
